@@ -86,14 +86,16 @@ func runKA(c KACase) vlib.Result {
 		wg.Add(1)
 		go func(ci int, gaps []int) {
 			defer wg.Done()
+			// the server arms its first deadline when it accepts, which can happen before Dial has returned
+			// here: the lower bound is taken before dialing, the upper bound after
+			lastSent := time.Now()
 			conn, err := net.DialTimeout("tcp", addr, 3*time.Second)
 			if err != nil {
 				errs[ci] = fmt.Errorf("harness: dial: %v", err)
 				return
 			}
 			defer conn.Close()
-			lastSent := time.Now()   // the server armed its deadline at or after this instant
-			lastAnswered := lastSent // ... and at or before this one
+			lastAnswered := time.Now()
 			br := bufio.NewReader(conn)
 			var ws *vlib.WSClient
 			if c.Kind == "ws" {
